@@ -27,6 +27,7 @@ import (
 	"strconv"
 	"strings"
 	"time"
+	"unicode/utf8"
 
 	"github.com/bitcoin-sv/block-headers-service/verifharness/lib"
 	"github.com/gin-gonic/gin"
@@ -39,6 +40,7 @@ const c16Admin = "c16-admin-token-0123456789"
 type c16Side struct {
 	name     string
 	auth     bool
+	metrics  bool // metrics.enabled=true: request middleware + NoRoute marker + GET /metrics, as cmd/main.go registers them
 	ci       *ChainImpl
 	l        *lib.Lean
 	sh       *c16Shadow
@@ -47,14 +49,19 @@ type c16Side struct {
 	pool     *c16Pool
 	routes   [][2]string
 	n        int
+	curPath  string // decoded path of the request being exchanged (what the metrics middleware uses as a label)
+	// table digests taken after the previous exchange: they are the "before" of the next one (nothing but exchanges touches the
+	// tables in between; loadStore / deactivate invalidate). A change that lands between two exchanges is therefore seen too.
+	lastH, lastA string
+	haveLast     bool
 }
 
-func c16NewSide(c *Ctx, name string, auth bool) (*c16Side, error) {
-	ci, err := newChainImpl("c16-"+name+".db", lib.StackOpts{UseAuth: auth, AdminToken: c16Admin})
+func c16NewSide(c *Ctx, name string, auth, withMetrics bool) (*c16Side, error) {
+	ci, err := newChainImpl("c16-"+name+".db", lib.StackOpts{UseAuth: auth, AdminToken: c16Admin, Metrics: withMetrics})
 	if err != nil {
 		return nil, err
 	}
-	s := &c16Side{name: name, auth: auth, ci: ci, l: c.lean()}
+	s := &c16Side{name: name, auth: auth, metrics: withMetrics, ci: ci, l: c.lean()}
 	// development aid: VERIF_C16_FIX=switch[,switch…] (or `all`) overrides switches of the model's `codeToday` for this run,
 	// to try a patch of /repo (e.g. through a build overlay) before flipping the definition in BHS/Model/Http.lean
 	for _, f := range strings.Split(os.Getenv("VERIF_C16_FIX"), ",") {
@@ -76,6 +83,8 @@ func (s *c16Side) close() {
 // loadStore resets both sides and ingests the history (ops: reset / forbid / add).
 func (s *c16Side) loadStore(c *Ctx, name string, ops []string) error {
 	s.storeOps = nil
+	s.haveLast = false
+	defer func() { s.haveLast = false }()
 	for _, op := range ops {
 		w := strings.Fields(op)
 		switch w[0] {
@@ -245,12 +254,15 @@ func (s *c16Side) exchange(c *Ctx, storeName string, q *c16Request, nontrivialSt
 	if err != nil {
 		return nil
 	}
+	s.curPath = req.URL.Path
 	route := abs.Kind
 	if abs.Kind == "route" {
 		route = abs.Method + " " + abs.Pattern
 	}
-	hBefore := tableDigest(s.ci)
-	aBefore := s.auxDigest()
+	if !s.haveLast {
+		s.lastH, s.lastA, s.haveLast = tableDigest(s.ci), s.auxDigest(), true
+	}
+	hBefore, aBefore := s.lastH, s.lastA
 	w := httptest.NewRecorder()
 	crashed := ""
 	func() {
@@ -263,6 +275,7 @@ func (s *c16Side) exchange(c *Ctx, storeName string, q *c16Request, nontrivialSt
 	}()
 	hAfter := tableDigest(s.ci)
 	aAfter := s.auxDigest()
+	s.lastH, s.lastA = hAfter, aAfter
 	body := w.Body.Bytes()
 	kinds, docs := c16Classify(body)
 	impl := c16Canon(w.Code, kinds)
@@ -286,11 +299,11 @@ func (s *c16Side) exchange(c *Ctx, storeName string, q *c16Request, nontrivialSt
 		model = ans
 		c.R.TracesValidated++
 		if ans != impl && c.Driver != "none" {
-			c.R.Disagree(lib.Disagreement{Case: s.name + "/" + storeName + " " + route, Ops: append(append([]string{}, s.storeOps...), q.opLine()),
+			c.R.Disagree(lib.Disagreement{Case: s.name + "/" + storeName + " " + route, Ops: s.replayOps(true, q),
 				Op: "http req " + q.Auth + " " + abbreviate(abs.Line), Impl: impl + " body=" + c16Short(body), Model: ans})
 		}
 	case !abs.Lite:
-		c.R.Fail(lib.Failure{Case: route, Ops: []string{"reset", q.opLine()}, What: "a route of the routing table that the HTTP model does not know (the quantifier is every route)",
+		c.R.Fail(lib.Failure{Case: route, Ops: s.replayOps(false, q), What: "a route of the routing table that the HTTP model does not know (the quantifier is every route)",
 			Expected: "every API route has a handler model", Observed: route, Signature: "c16-unmodelled-route:" + route})
 	}
 	if len(c.R.Samples) < 10 && (s.n%97 == 1 || w.Code >= 500) {
@@ -335,15 +348,23 @@ func (s *c16Side) exchange(c *Ctx, storeName string, q *c16Request, nontrivialSt
 		return nil
 	}
 	sig, storeDependent := s.signature(abs, route, w.Code, kinds, body, crashed != "", hBefore != hAfter, aBefore != aAfter)
-	ops := []string{"reset"}
-	if storeDependent {
-		ops = append([]string{}, s.storeOps...)
-	}
-	ops = append(ops, q.opLine())
+	ops := s.replayOps(storeDependent, q)
 	c.R.Fail(lib.Failure{Case: s.name + "/" + storeName + " " + q.Method + " " + abbreviate(q.Target), Ops: ops, What: route + ": " + strings.Join(broken, "; "),
 		Expected: "2xx/3xx/4xx, exactly one JSON document, 4xx with non-empty code and message, no table change", Observed: fmt.Sprintf("%d %s body=%s", w.Code, w.Header().Get("Content-Type"), c16Short(body)),
 		Signature: sig, Extra: map[string]any{"abstract": abbreviate(abs.Line), "request_body": c16Short(q.Body), "content_type": q.CType, "auth": q.Auth}})
 	return nil
+}
+
+// replayOps: the op lines that reproduce one exchange (store, configuration, request).
+func (s *c16Side) replayOps(withStore bool, q *c16Request) []string {
+	ops := []string{"reset"}
+	if withStore {
+		ops = append([]string{}, s.storeOps...)
+	}
+	if s.metrics {
+		ops = append(ops, c16MetricsOp)
+	}
+	return append(ops, q.opLine())
 }
 
 // signature: a specific predicate over the failure (one per known defect), `c16-other:…` for anything else.
@@ -356,6 +377,10 @@ func (s *c16Side) signature(abs *c16Abs, route string, status int, kinds []strin
 		return "c16-store-touched:" + route, true
 	}
 	is := func(ks ...string) bool { return strings.Join(kinds, "+") == strings.Join(ks, "+") }
+	if s.metrics && status >= 500 && len(body) == 0 && !utf8.ValidString(s.curPath) {
+		// the request metrics use the decoded path as a label value; prometheus panics on label values that are not UTF-8
+		return "c16-metrics-path-not-utf8-5xx:" + route, false
+	}
 	switch route {
 	case "GET " + c16Prefix + "/chain/header/byHeight":
 		h := ""
@@ -414,6 +439,7 @@ func (s *c16Side) signature(abs *c16Abs, route string, status int, kinds []strin
 
 // deactivate switches a registered webhook off on both sides (what repeated delivery failures do: C12).
 func (s *c16Side) deactivate(url string) error {
+	s.haveLast = false
 	res, err := s.ci.DB.Exec("UPDATE webhooks SET is_active = 0 WHERE url = ?", url)
 	if err != nil {
 		return err
@@ -436,6 +462,49 @@ func (s *c16Side) alive() bool {
 		s.ci.Engine.ServeHTTP(w, httptest.NewRequest("GET", "/status", nil))
 	}()
 	return ok && w.Code == 200
+}
+
+// sendAll shuffles the requests (webhook registrations, queries and deletions interleave), sends each one in the authentication
+// variants of the side, and checks that the engine still answers.
+func (s *c16Side) sendAll(c *Ctx, storeName string, reqs []*c16Request, rng *rand.Rand, nontrivial bool) error {
+	rng.Shuffle(len(reqs), func(i, j int) { reqs[i], reqs[j] = reqs[j], reqs[i] })
+	for k, q := range reqs {
+		var variants []*c16Request
+		if !s.auth {
+			q.Auth = "disabled"
+			if k%7 == 0 {
+				q.AuthH = "Bearer whatever" // ignored when authentication is off
+			}
+			variants = []*c16Request{q}
+		} else {
+			a := *q
+			a.Auth, a.AuthH = "admin", s.authHeader("admin", nil)
+			variants = append(variants, &a)
+			if k%3 == 0 || strings.HasPrefix(q.Target, c16Prefix+"/access") {
+				b := *q
+				b.Auth = []string{"missing", "malformed", "unknown", "user"}[rng.Intn(4)]
+				b.AuthH = s.authHeader(b.Auth, rng)
+				variants = append(variants, &b)
+			}
+		}
+		for _, v := range variants {
+			if err := s.exchange(c, storeName, v, nontrivial); err != nil {
+				return err
+			}
+		}
+		if k%50 == 49 && len(s.pool.hooks) > 0 {
+			if err := s.deactivate(s.pool.hooks[rng.Intn(len(s.pool.hooks))]); err != nil {
+				return err
+			}
+		}
+		if k%500 == 499 && !s.alive() {
+			c.R.Fail(lib.Failure{Case: s.name + "/" + storeName, What: "the engine stopped answering GET /status", Signature: "c16-server-dead"})
+		}
+	}
+	if !s.alive() {
+		c.R.Fail(lib.Failure{Case: s.name + "/" + storeName, What: "the engine stopped answering GET /status", Signature: "c16-server-dead"})
+	}
+	return nil
 }
 
 // c16CraftedStore: forks, a plain orphan, and two orphans whose parents arrive later (their heights stay 1).
@@ -486,30 +555,33 @@ func runC16(c *Ctx) error {
 	if c.Thorough {
 		nStores, nMut = 14, 20000
 	}
-	sides := []*c16Side{}
+	// metrics.EnableMetrics() cannot be undone within a process: the metrics-off engines are built here, first, and the
+	// metrics-on engines (c16Sides.metricsSide) only when the metrics phase / a replay naming that configuration needs them.
+	ss := &c16Sides{c: c}
+	defer ss.close()
 	for _, cf := range []struct {
 		name string
 		auth bool
 	}{{"noauth", false}, {"auth", true}} {
-		s, err := c16NewSide(c, cf.name, cf.auth)
+		s, err := c16NewSide(c, cf.name, cf.auth, false)
 		if err != nil {
 			return err
 		}
-		defer s.close()
-		sides = append(sides, s)
+		ss.base = append(ss.base, s)
 	}
+	sides := ss.base
 
 	if c.Replay != "" {
 		ops, err := lib.ReadReplayOps(c.Replay)
 		if err != nil {
 			return err
 		}
-		return c16Replay(c, sides, "replay", ops)
+		return c16Replay(c, ss, "replay", ops)
 	}
 
 	// corpus first: the witnesses of repaired defects run as ordinary cases (a regression is a VIOLATION)
 	for _, cs := range loadCorpus("C16") {
-		if err := c16Replay(c, sides, cs.name, cs.ops); err != nil {
+		if err := c16Replay(c, ss, cs.name, cs.ops); err != nil {
 			return err
 		}
 		c.R.Count("corpus cases replayed", 1)
@@ -559,43 +631,8 @@ func runC16(c *Ctx) error {
 			for i := 0; i < nm && len(valid) > 0; i++ {
 				reqs = append(reqs, c16Mutate(rng, valid[rng.Intn(len(valid))]))
 			}
-			// random order: webhook registrations, queries and deletions interleave
-			rng.Shuffle(len(reqs), func(i, j int) { reqs[i], reqs[j] = reqs[j], reqs[i] })
-			for k, q := range reqs {
-				var variants []*c16Request
-				if !s.auth {
-					q.Auth = "disabled"
-					if k%7 == 0 {
-						q.AuthH = "Bearer whatever" // ignored when authentication is off
-					}
-					variants = []*c16Request{q}
-				} else {
-					a := *q
-					a.Auth, a.AuthH = "admin", s.authHeader("admin", nil)
-					variants = append(variants, &a)
-					if k%3 == 0 || strings.HasPrefix(q.Target, c16Prefix+"/access") {
-						b := *q
-						b.Auth = []string{"missing", "malformed", "unknown", "user"}[rng.Intn(4)]
-						b.AuthH = s.authHeader(b.Auth, rng)
-						variants = append(variants, &b)
-					}
-				}
-				for _, v := range variants {
-					if err := s.exchange(c, st.name, v, nontrivial); err != nil {
-						return err
-					}
-				}
-				if k%50 == 49 && len(s.pool.hooks) > 0 {
-					if err := s.deactivate(s.pool.hooks[rng.Intn(len(s.pool.hooks))]); err != nil {
-						return err
-					}
-				}
-				if k%500 == 499 && !s.alive() {
-					c.R.Fail(lib.Failure{Case: s.name + "/" + st.name, What: "the engine stopped answering GET /status", Signature: "c16-server-dead"})
-				}
-			}
-			if !s.alive() {
-				c.R.Fail(lib.Failure{Case: s.name + "/" + st.name, What: "the engine stopped answering GET /status", Signature: "c16-server-dead"})
+			if err := s.sendAll(c, st.name, reqs, rng, nontrivial); err != nil {
+				return err
 			}
 		}
 		if !c.Thorough && time.Since(started) > 75*time.Second {
@@ -610,7 +647,7 @@ func runC16(c *Ctx) error {
 	// known findings: replay each recorded witness on a fresh store
 	for _, kn := range lib.KnownFor(c.Known, "C16") {
 		sub := &Ctx{Prop: c.Prop, Tier: c.Tier, Seed: c.Seed, Driver: c.Driver, Known: c.Known, R: lib.NewResult("C16", c.Tier, c.Seed)}
-		if err := c16Replay(sub, sides, kn.ID, kn.Witness.Ops); err != nil {
+		if err := c16Replay(sub, ss, kn.ID, kn.Witness.Ops); err != nil {
 			return err
 		}
 		st := "not-reproduced"
@@ -624,18 +661,31 @@ func runC16(c *Ctx) error {
 			c.R.Disagree(d)
 		}
 	}
-	return nil
+
+	// metrics.enabled=true — last, after every metrics-off engine has done its work
+	return c16MetricsPhase(c, ss, rng)
 }
 
-// c16Replay runs recorded ops (`reset`, `add <hex160>`, `req …`) on the side the first request names.
-func c16Replay(c *Ctx, sides []*c16Side, name string, ops []string) error {
-	s := sides[0]
+// c16Replay runs recorded ops (`reset`, `add <hex160>`, `metrics on`, `req …`) on the side the first request (and a `metrics on` line) names.
+func c16Replay(c *Ctx, ss *c16Sides, name string, ops []string) error {
+	auth, withMetrics := false, false
 	for _, op := range ops {
 		if q, ok := c16ParseOp(op); ok {
-			if q.Auth != "disabled" {
-				s = sides[1]
-			}
+			auth = q.Auth != "disabled"
 			break
+		}
+	}
+	for _, op := range ops {
+		withMetrics = withMetrics || strings.TrimSpace(op) == c16MetricsOp
+	}
+	s := ss.base[0]
+	if auth {
+		s = ss.base[1]
+	}
+	if withMetrics {
+		var err error
+		if s, err = ss.metricsSide(auth); err != nil {
+			return err
 		}
 	}
 	var storeOps []string
